@@ -308,20 +308,21 @@ class Ctx:
         return rec
 
     def apalache_ind(self, family, module, inv="IndInv", init="Init", ind_init="IndInit", next_="Next",
-                     cinit=None, timeout=600, expect_violation=False, label=None):
+                     cinit=None, timeout=600, expect_violation=False, label=None, extra=None):
         """Unbounded safety of a small integer/set-shaped specification by an inductive invariant,
         discharged symbolically by Apalache: (1) Init => inv (length 0) and (2) ind_init /\ Next => inv'
         (length 1, where ind_init states inv as the initial predicate).  With expect_violation the
         step is *meant* to fail (non-vacuity witness: the invariant is not inductive for a deviation)."""
         d = self._specdir(family)
         t = time.time()
-        def run(initp, length, tag):
+        def run(initp, length, tag, more=()):
             self.nrun += 1
             out_dir = self.path("apa-%d" % self.nrun)
             cmd = ["apalache-mc", "check", "--out-dir=" + out_dir, "--init=" + initp, "--next=" + next_,
                    "--inv=" + inv, "--length=%d" % length]
             if cinit:
                 cmd.append("--cinit=" + cinit)
+            cmd += list(more)   # options for the step run only (an invariant filter would make the base run vacuous)
             cmd.append(module + ".tla")
             try:
                 p = subprocess.run(cmd, cwd=d, env=self.env(None, ""), timeout=timeout,
@@ -334,7 +335,7 @@ class Ctx:
         rc0, out0 = run(init, 0, "base")
         if rc0 != 0 or "NoError" not in out0:
             raise MachineryError("apalache base case %s: Init => %s failed rc=%d\n%s" % (module, inv, rc0, out0[-3000:]))
-        rc1, out1 = run(ind_init, 1, "step")
+        rc1, out1 = run(ind_init, 1, "step", extra or ())
         rec = {"module": module, "cfg": "apalache --init=%s --inv=%s --length=1" % (ind_init, inv),
                "generated": 0, "distinct": 0, "depth": 1, "wall_s": round(time.time() - t, 1),
                "label": label or (module + " inductive invariant " + inv), "kind": "inductive_invariant (Apalache, unbounded)"}
@@ -347,8 +348,11 @@ class Ctx:
             raise MachineryError("apalache inductive step %s: %s /\\ %s => %s' failed rc=%d\n%s"
                                  % (module, ind_init, next_, inv, rc1, out1[-3000:]))
         self.mc.append(rec)
-        log("[apalache] %s: %s is inductive (Init => Inv, Inv /\\ Next => Inv'), %.1fs%s" %
-            (module, inv, rec["wall_s"], " (step violated as intended)" if expect_violation else ""))
+        if expect_violation:
+            log("[apalache] %s: %s is NOT inductive under %s (as intended: non-vacuity witness), %.1fs" %
+                (module, inv, cinit or next_, rec["wall_s"]))
+        else:
+            log("[apalache] %s: %s is inductive (Init => Inv, Inv /\\ Next => Inv'), %.1fs" % (module, inv, rec["wall_s"]))
         return rec
 
     @staticmethod
